@@ -228,6 +228,11 @@ def persOk (f : Face) (p : Nat) : Bool :=
     components; the handlers test `len(NameV) < prefixLength()+3` first -/
 def hasParams (name : Name) : Bool := 5 ≤ name.length
 
+/-- largest ExpirationPeriod (ms) that fits a time.Duration (ns in an int64) -/
+def maxExpMs : Nat := 9223372036854
+
+def expOk (e : Option Nat) : Bool := match e with | some x => x ≤ maxExpMs | none => true
+
 def persArgOk (f : Face) (pers : Option Nat) : Bool :=
   match pers with | some pv => persOk f pv | none => true
 
